@@ -126,13 +126,13 @@ func runC17(c *CaseCtx) {
 // runC18: Backup while writers run. Writers execute a pre-generated list of operations indexed by an in-database
 // sequence key, so the state after n commits is the deterministic S(n).
 func runC18(c *CaseCtx) {
-	if c.Case%16 == 9 {
+	if c.Case%8 == 1 {
 		kind := []string{"kv", "set", "zset", "list"}[c.Rng.Intn(4)]
 		modes := []int{0}
 		if kind == "kv" {
 			modes = []int{0, 1, 2}
 		}
-		largeHistory(c, "backup-quiescent", largeOpts{Kind: kind, Modes: modes, Backup: true, Merge: c.Case%32 == 9})
+		largeHistory(c, "backup-quiescent", largeOpts{Kind: kind, Modes: modes, Backup: true, Merge: c.Case%16 == 9})
 		return
 	}
 	r := c.Rng
@@ -197,6 +197,13 @@ func runC18(c *CaseCtx) {
 	// the script: ops[n] is executed by whichever writer finds seq == n
 	nOps := tier(c.Tier, 120, 300)
 	g := &Gen{R: r, U: u, Cfg: cfg, KV: true, List: ds, Set: ds, ZSet: ds, MaxOps: 3, M: NewModel(), NoZPop: false}
+	// a quarter of the RAM-mode cases run Merge in a loop next to the writers and the Backups (Merge changes files,
+	// never contents; such scripts leave out lists and positional sorted-set removals: recorded finding of C15)
+	merger := cfg.Mode != 2 && c.Case%4 == 1 && writers > 0
+	if merger {
+		g.List, g.NoZPop = false, true
+		class += "-with-merge"
+	}
 	var script []TxSpec
 	states := []*Model{NewModel()}
 	for i := 0; i < nOps; i++ {
@@ -293,6 +300,40 @@ func runC18(c *CaseCtx) {
 			}
 		}()
 	}
+	var mergesDone int64
+	if merger {
+		// a few dozen sealed segments to begin with (mostly dead records of an unrelated bucket): a Backup has many
+		// files to copy, a Merge many to remove
+		// ... with live records of the script spread over them: its first third runs now, one filler record after
+		// each step
+		val := make([]byte, int(cfg.Seg)/2)
+		for k := 0; k < 40+r.Intn(40); k++ {
+			if k < len(script)/3 {
+				if _, err := step(); err != nil {
+					werr.Store(err.Error())
+					break
+				}
+			}
+			db.Update(func(tx *nutsdb.Tx) error { return tx.Put("pre", []byte(fmt.Sprintf("q%d", k%7)), val, 0) })
+		}
+		wg.Add(1)
+		go func() {
+			defer wg.Done()
+			for atomic.LoadInt32(&stop) == 0 {
+				func() {
+					defer func() {
+						if p := recover(); p != nil {
+							werr.Store(fmt.Sprintf("Merge panicked: %v", p))
+						}
+					}()
+					if db.Merge() == nil {
+						atomic.AddInt64(&mergesDone, 1)
+					}
+				}()
+				time.Sleep(200 * time.Microsecond)
+			}
+		}()
+	}
 	if writers == 0 {
 		for i := 0; i < r.Intn(len(script)); i++ {
 			if _, err := step(); err != nil {
@@ -302,6 +343,9 @@ func runC18(c *CaseCtx) {
 		}
 	}
 	nBackups := 1 + r.Intn(3)
+	if merger {
+		nBackups += 3
+	}
 	type bk struct {
 		dir      string
 		lo, hi   int64
@@ -328,6 +372,7 @@ func runC18(c *CaseCtx) {
 	}
 	atomic.StoreInt32(&stop, 1)
 	wg.Wait()
+	c.Stat("merges_during_backups", atomic.LoadInt64(&mergesDone))
 	if e, _ := werr.Load().(string); e != "" {
 		c.Violate("writer-failed:"+errClass(e), class, "a scripted writer failed: "+e)
 	}
